@@ -926,6 +926,7 @@ uint64_t sim_machine_time_stamp(void) {
 }
 void sim_tso_region(const void* p, size_t n, int on) { if (!g_active) return; if (on) sim::tso_register(p, n); else sim::tso_unregister(p, n); }
 void sim_probe(const char* name) { if (g_active) sim::probe(name); }
+unsigned sim_random_salt(void) { return g_active ? (unsigned)(sim::g_time_salt * 2654435761u) : 0u; }
 int sim_spin_knob(int dflt) { return (g_active && g_cfg.spin_knob >= 0) ? g_cfg.spin_knob : dflt; }
 
 void* sim_mmap(void* addr, size_t len, int prot, int flags, int fd, off_t off) {
